@@ -28,6 +28,7 @@ func init() {
 			{ID: "C01-R3", Doc: "operator row loops visit every row read exactly once, at its own index, and write it at the next free output row", Run: c01r3},
 			{ID: "C17-R5", Doc: "end-of-stream is produced only at the sanctioned sites, under their recorded conditions: a reader that still holds rows does not end (shared)", Run: c17r5},
 			{ID: "C17-R6", Doc: "rows returned together with end-of-stream (or nil) are never dropped (shared)", Run: c17r6},
+			{ID: "C17-R1", Doc: "an input error is reported by every operator reader, never turned into a clean, shorter result (shared)", Run: c17r1},
 			{ID: "C05-R9", Doc: "driver and worker agree on one location per dependency task (shared)", Run: c05r9},
 		},
 	})
